@@ -13,6 +13,7 @@ func main() {
 	ops := os.Args[1:]
 	opt := world.DefaultOptions()
 	opt.KeepLog = true
+	opt.DefaultBackend = os.Getenv("DB")
 	w := world.NewWorld()
 	p, err := world.NewPipeline(w, opt)
 	if err != nil {
@@ -38,7 +39,9 @@ func main() {
 	for _, l := range p.Log.Lines {
 		fmt.Println("LOG", l)
 	}
-	res := world.RunHistory(ops, world.DefaultOptions(), true)
+	fopt := world.DefaultOptions()
+	fopt.DefaultBackend = os.Getenv("DB")
+	res := world.RunHistory(ops, fopt, true)
 	fmt.Println("DIFF:", res.Diff, res.Err)
 	if len(os.Getenv("DUMP")) > 0 {
 		fmt.Println(strings.Repeat("=", 20), "LONG")
